@@ -26,7 +26,7 @@ carquet_status_t carquet_delta_strings_decode(const uint8_t*, size_t, carquet_by
                                               uint8_t*, size_t, size_t*);
 carquet_status_t carquet_delta_strings_encode(const carquet_byte_array_t*, int32_t, carquet_buffer_t*);
 
-static long st_enc, st_dec, st_err, st_wide, st_gram, st_gram_other, st_mut, st_rand, st_bytes, st_maxn;
+static long st_enc, st_dec, st_err, st_wide, st_gram, st_gram_other, st_mut, st_rand, st_bytes, st_maxn, st_big;
 static long st_status[80];
 
 static void put_i64s(FILE* f, const int64_t* v, long n) {
@@ -221,7 +221,13 @@ static void do_dl_dec(hctx* h, const uint8_t* data, size_t size, long n, int gra
     carquet_status_t st = carquet_delta_length_decode(in, size, out, (int32_t)n, &consumed);
     fprintf(h->out, " | st=%d vals=", (int)st);
     if (st == CARQUET_OK) put_strs(h->out, out, m); else { fputc('-', h->out); consumed = 0; }
-    fprintf(h->out, " consumed=%zu\n", consumed);
+    fprintf(h->out, " consumed=%zu", consumed);
+    if (st == CARQUET_OK) {   /* the returned pointers as offsets into the input (C08: slices inside the input) */
+        fprintf(h->out, " offs=");
+        for (long i = 0; i < m; i++) fprintf(h->out, i ? ",%lld" : "%lld", (long long)(out[i].data - in));
+        if (m == 0) fputc('-', h->out);
+    }
+    fputc('\n', h->out);
     h->n_lines++; st_dec++; count_status((int)st);
     free(in); free(out);
 }
@@ -235,7 +241,13 @@ static void do_ds_dec(hctx* h, const uint8_t* data, size_t size, long n, size_t 
     carquet_status_t st = carquet_delta_strings_decode(in, size, out, (int32_t)n, wb, work, &consumed);
     fprintf(h->out, " | st=%d vals=", (int)st);
     if (st == CARQUET_OK) put_strs(h->out, out, m); else { fputc('-', h->out); consumed = 0; }
-    fprintf(h->out, " consumed=%zu\n", consumed);
+    fprintf(h->out, " consumed=%zu", consumed);
+    if (st == CARQUET_OK) {   /* the returned pointers as offsets into the work buffer (C08) */
+        fprintf(h->out, " woffs=");
+        for (long i = 0; i < m; i++) fprintf(h->out, i ? ",%lld" : "%lld", (long long)(out[i].data - wb));
+        if (m == 0) fputc('-', h->out);
+    }
+    fputc('\n', h->out);
     h->n_lines++; st_dec++; count_status((int)st);
     free(in); free(out); free(wb);
 }
@@ -268,6 +280,44 @@ static void do_bytes_enc(hctx* h, int strings, const carquet_byte_array_t* vals,
     fputc('\n', h->out);
     h->n_lines++; st_enc++; count_status((int)st); st_bytes += (long)written;
     carquet_buffer_destroy(&out);
+}
+
+/* Byte arrays too long to print: value i consists of lens[i] bytes, all equal to `fill` (so the
+ * DELTA_BYTE_ARRAY prefix of value i is min(lens[i-1], lens[i])).  The line carries the first bytes of the
+ * output (they contain the length streams), the output size, and two C-side predicates: p_data (the
+ * output ends with the concatenated (suffix) bytes) and p_rt (the real decoder returns the input).
+ * Directed at the encoders' internal scratch buffer for the length streams (F61: lengths 0,2^27,0). */
+static void do_bytes_big(hctx* h, int strings, const int64_t* lens, int n, int fill) {
+    carquet_byte_array_t* v = (carquet_byte_array_t*)h_alloc((size_t)n * sizeof *v);
+    size_t total = 0, suffix_total = 0;
+    for (int i = 0; i < n; i++) {
+        size_t len = (size_t)lens[i];
+        v[i].data = h_alloc(len); memset(v[i].data, fill, len); v[i].length = (int32_t)len;
+        size_t p = (strings && i > 0) ? (size_t)(lens[i - 1] < lens[i] ? lens[i - 1] : lens[i]) : 0;
+        total += len; suffix_total += len - p;
+    }
+    carquet_buffer_t out; carquet_buffer_init(&out);
+    fprintf(h->out, "%s lens=", strings ? "ds_big" : "dl_big"); put_i64s(h->out, lens, n); fprintf(h->out, " fill=%d", fill); h_call(h);
+    carquet_status_t st = strings ? carquet_delta_strings_encode(v, n, &out) : carquet_delta_length_encode(v, n, &out);
+    size_t written = st == CARQUET_OK ? carquet_buffer_size(&out) : 0;
+    fprintf(h->out, " | st=%d size=%zu head=", (int)st, written); { size_t lim = 200 + 24 * (size_t)n; h_hex(h->out, carquet_buffer_data(&out), written < lim ? written : lim); }
+    if (st == CARQUET_OK) {
+        const uint8_t* o = carquet_buffer_data(&out);
+        int okd = written >= suffix_total;
+        for (size_t k = 0; okd && k < suffix_total; k++) if (o[written - suffix_total + k] != (uint8_t)fill) okd = 0;
+        uint8_t* in = h_alloc(written); memcpy(in, o, written);
+        carquet_byte_array_t* back = (carquet_byte_array_t*)h_alloc((size_t)n * sizeof *back);
+        uint8_t* wb = h_alloc(total); size_t consumed = (size_t)-1;
+        carquet_status_t s2 = strings ? carquet_delta_strings_decode(in, written, back, n, wb, total, &consumed)
+                                      : carquet_delta_length_decode(in, written, back, n, &consumed);
+        int ok = s2 == CARQUET_OK && consumed == written && same_strs(v, back, n);
+        fprintf(h->out, " p_data=%d p_rt=%d", okd, ok);
+        free(back); free(wb); free(in);
+    }
+    fputc('\n', h->out);
+    h->n_lines++; st_enc++; st_big++; count_status((int)st); st_bytes += (long)written;
+    carquet_buffer_destroy(&out);
+    free_strs(v, n);
 }
 
 /* string list patterns: 0 random short, 1 empty strings mixed in, 2 sorted with shared prefixes,
@@ -498,7 +548,28 @@ static void gen_delta(hctx* h) {
         carquet_byte_array_t none; none.data = h_alloc(0); none.length = 0;
         do_bytes_enc(h, 0, &none, 0, NULL, NULL); do_bytes_enc(h, 1, &none, 0, NULL, NULL); free(none.data);
     }
+    /* 6. long values (given by their lengths): length jumps >= 2^27 among 3..5 values are what the length
+     * streams need most room for per value (F61); n = 2, 6 and 130 around them */
+    {
+        const int64_t B = (int64_t)1 << 27;
+        int64_t c0[3] = {0, B, 0}, c1[3] = {B, 0, 0}, c2[4] = {0, B + 3, 0, 7}, c3[5] = {1, 0, B, 0, 2}, c4[2] = {0, B}, c5[6] = {0, B, 0, 0, 0, 0};
+        do_bytes_big(h, 0, c0, 3, 0); do_bytes_big(h, 1, c1, 3, 0xab);
+        if (h->thorough) {
+            int64_t c6[3] = {0, B * 2, 0}; int64_t c7[130]; for (int i = 0; i < 130; i++) c7[i] = (i == 64) ? B : (i % 3);
+            do_bytes_big(h, 1, c0, 3, 1); do_bytes_big(h, 0, c1, 3, 2);
+            do_bytes_big(h, 0, c2, 4, 3); do_bytes_big(h, 1, c2, 4, 4); do_bytes_big(h, 0, c3, 5, 5); do_bytes_big(h, 1, c3, 5, 6);
+            do_bytes_big(h, 0, c4, 2, 7); do_bytes_big(h, 1, c5, 6, 8); do_bytes_big(h, 0, c6, 3, 9); do_bytes_big(h, 1, c7, 130, 10);
+        }
+        /* small instances of the same op (cheap): every list length around the block boundaries */
+        static const int bl[] = {1, 2, 3, 5, 6, 127, 128, 129, 130, 256, 257, 258};
+        for (size_t k = 0; k < sizeof bl / sizeof *bl; k++) for (int strings = 0; strings <= 1; strings++) {
+            int64_t* ls = (int64_t*)h_alloc(sizeof(int64_t) * (size_t)bl[k]);
+            for (int i = 0; i < bl[k]; i++) ls[i] = h_chance(h, 1, 3) ? 0 : (int64_t)h_below(h, 3000);
+            do_bytes_big(h, strings, ls, bl[k], (int)h_below(h, 256)); free(ls);
+        }
+    }
     free(v);
+    fprintf(h->out, "#stat long_value_ops %ld\n", st_big);
     fprintf(h->out, "#stat enc_ops %ld\n#stat dec_ops %ld\n#stat error_results %ld\n#stat wide_miniblock_inputs %ld\n", st_enc, st_dec, st_err, st_wide);
     fprintf(h->out, "#stat writer_streams_128_4 %ld\n#stat writer_streams_other_geometry %ld\n#stat mutated %ld\n#stat random %ld\n", st_gram, st_gram_other, st_mut, st_rand);
     fprintf(h->out, "#stat encoded_bytes %ld\n#stat max_values %ld\n", st_bytes, st_maxn);
@@ -535,6 +606,10 @@ static int replay_delta(hctx* h, const h_line* l) {
     if (!strcmp(l->op, "dl_enc") || !strcmp(l->op, "ds_enc")) {
         int n; carquet_byte_array_t* s = parse_strs(h_in(l, "vals"), &n);
         do_bytes_enc(h, l->op[1] == 's', s, n, NULL, NULL); free_strs(s, n); return 1;
+    }
+    if (!strcmp(l->op, "dl_big") || !strcmp(l->op, "ds_big")) {
+        size_t n; int64_t* lens = h_list(h_in(l, "lens"), &n);
+        do_bytes_big(h, l->op[1] == 's', lens, (int)n, (int)h_ll(h_in(l, "fill"))); free(lens); return 1;
     }
     if (!strcmp(l->op, "dl_dec")) {
         size_t n; uint8_t* d = h_unhex(h_in(l, "data"), &n);
